@@ -235,7 +235,7 @@ func c04Run(c Case) (Result, error) {
 	}
 	aggPts, err := crypto.AggregateBLSSignatures(pts)
 	if err != nil {
-		return Result{}, fmt.Errorf("aggregating valid encodings failed: %v", err)
+		return Result{}, implViolation("aggregating valid encodings failed: %v", err)
 	}
 	ptsId := crypto.IsBLSSignatureIdentity(aggPts)
 	var sch []string
